@@ -209,6 +209,7 @@ type Obs struct {
 type Step struct {
 	Chain int         `json:"chain"`
 	Env   int         `json:"env"`
+	Op    int         `json:"op"` // index (in spec.ops) of the abstract op this step belongs to / was caused by
 	Act   interface{} `json:"act"`
 	Obs   Obs         `json:"obs"`
 }
